@@ -52,6 +52,28 @@ def state_digest(obj):
     return ab.digest(_state_of(obj))
 
 
+def flat_state(obj, prefix="", depth=0):
+    """attribute path -> digest, nested estimators flattened (budget_manager_.u_t_ ...)"""
+    from sklearn.base import BaseEstimator
+
+    out = {}
+    for k, v in sorted(vars(obj).items()):
+        if not k.endswith("_"):
+            continue
+        if isinstance(v, BaseEstimator) and depth < 3:
+            out[prefix + k + "#params"] = ab.digest(_canon(v.get_params(deep=False), depth + 1))
+            out.update(flat_state(v, prefix + k + ".", depth + 1))
+        else:
+            out[prefix + k] = ab.digest(_canon(v, depth))
+    return out
+
+
+def restricted_digest(state, keys):
+    """digest of `state` restricted to `keys` (attributes that existed at the previous event): an attribute
+    that a call creates lazily with its initial value is not a change of state, a vanished one is"""
+    return ab.digest({k: state.get(k, "MISSING") for k in sorted(keys)})
+
+
 class Ids:
     """hex digests -> small integers (0 is reserved for 'not initialised')"""
 
@@ -184,6 +206,7 @@ def run(make_obj, is_manager, name, chunks, util_chunks, clf, extra, ids, other)
     obj) where steps are the twin records of the real queries/updates."""
     obj = make_obj()
     events, steps = [], []
+    prev = {}
     for s, cand in enumerate(chunks):
         utils = util_chunks[s]
         plan = [("same", s + 1)] * 0
@@ -204,9 +227,13 @@ def run(make_obj, is_manager, name, chunks, util_chunks, clf, extra, ids, other)
                     events.append({"ev": "QueryMalformed", "shape": list(ra.shape), "dtype": str(ra.dtype)})
                     failed = True
                     break
+                st = flat_state(obj)
                 ev = {"ev": "Query", "len": int(len(c)), "cid": cid, "res": [int(i) + 1 for i in ra],
                       "nutil": int(ua.shape[0]) if ua.ndim == 1 else -1,
-                      "udig": ids(ab.digest(np.asarray(ua, dtype=float))), "dig": ids(state_digest(obj))}
+                      "udig": ids(ab.digest(np.asarray(ua, dtype=float))),
+                      "dig": ids(restricted_digest(st, st.keys())),
+                      "digr": ids(restricted_digest(st, prev.keys()))}
+                prev = st
                 events.append(ev)
                 if kind == "real":
                     res, ut = r, utl
@@ -220,8 +247,9 @@ def run(make_obj, is_manager, name, chunks, util_chunks, clf, extra, ids, other)
             with warnings.catch_warnings():
                 warnings.simplefilter("ignore")
                 _call_update(obj, is_manager, cand.copy(), res, ut)
+            prev = flat_state(obj)
             events.append({"ev": "Update", "len": int(len(cand)), "q": [int(i) + 1 for i in np.asarray(res)],
-                           "dig": ids(state_digest(obj))})
+                           "dig": ids(restricted_digest(prev, prev.keys()))})
             steps.append({"cid": s + 1, "res": events[-2]["res"] if events[-2]["ev"] == "Query" else [],
                           "udig": events[-2].get("udig", 0), "dig": events[-1]["dig"]})
         except Exception as ex:
